@@ -1,4 +1,4 @@
-HOOK_COMMITS = ["e40aa97", "33402a7", "efe34e7", "716a4b3", "905d580", "47079e3", "7001989", "aa0edc7", "66a3f16"]
+HOOK_COMMITS = ["e40aa97", "33402a7", "efe34e7", "716a4b3", "905d580", "47079e3", "7001989", "aa0edc7", "66a3f16", "0467c1e"]
 
 NOT_BUILT = "check not built yet in this round (planned in DESIGN.md §4); not claimed until its theorems and correspondence exist"
 NOT_APPLICABLE = {("C%02d" % i): NOT_BUILT for i in range(1, 21)}
